@@ -83,6 +83,8 @@ impl StateMachine<'_> {
             self.painter.merge_conflict_commit_names[Ours] = Some(commit.to_string());
             // Not every region has an ancestral section: do not keep the name from an earlier one.
             self.painter.merge_conflict_commit_names[Ancestral] = None;
+            // (nor the name of the other side, should this region never be closed)
+            self.painter.merge_conflict_commit_names[Theirs] = None;
             true
         } else {
             false
